@@ -176,4 +176,440 @@ theorem groupForce_weighted (g : AGroup ℝ) (hM : msum g ≠ 0) (u : V3 ℝ) :
   rw [totalMass_eq, foldl_add_weighted, div_self hM]
   apply v3_ext <;> simp [V3.add, V3.smul, V3.zero, lit0]
 
+/-! ### calculus along a line -/
+
+
+theorem hasDerivAt_affine (a b x : ℝ) : HasDerivAt (fun t : ℝ => a + t * b) b x := by
+  have h := ((hasDerivAt_id x).mul_const b).const_add a
+  simpa using h
+
+/-- squared norm along a line -/
+theorem hasDerivAt_norm2_line (p w : V3 ℝ) :
+    HasDerivAt (fun t : ℝ => V3.norm2 (V3.add p (V3.smul t w))) (2 * V3.dot p w) 0 := by
+  have hx := hasDerivAt_affine p.x w.x 0
+  have hy := hasDerivAt_affine p.y w.y 0
+  have hz := hasDerivAt_affine p.z w.z 0
+  have h := ((hx.fun_mul hx).fun_add (hy.fun_mul hy)).fun_add (hz.fun_mul hz)
+  simp only [V3.norm2, V3.dot, V3.add, V3.smul]
+  exact h.congr_deriv (by ring)
+
+theorem add_smul_zero (p w : V3 ℝ) : V3.add p (V3.smul 0 w) = p := by
+  apply v3_ext <;> simp [V3.add, V3.smul]
+
+theorem norm2_nonneg (p : V3 ℝ) : 0 ≤ V3.norm2 p := by
+  simp only [V3.norm2, V3.dot]; nlinarith [mul_self_nonneg p.x, mul_self_nonneg p.y, mul_self_nonneg p.z]
+
+theorem norm_nonneg (p : V3 ℝ) : 0 ≤ V3.norm p := by
+  simp only [V3.norm, prim_sqrt]; exact Real.sqrt_nonneg _
+
+theorem norm2_ne_zero_of_norm {p : V3 ℝ} (hp : V3.norm p ≠ 0) : V3.norm2 p ≠ 0 := by
+  intro h; apply hp; simp [V3.norm, h]
+
+theorem norm_mul_self (p : V3 ℝ) : V3.norm p * V3.norm p = V3.norm2 p := by
+  simp only [V3.norm, prim_sqrt]; exact Real.mul_self_sqrt (norm2_nonneg p)
+
+/-- norm along a line -/
+theorem hasDerivAt_norm_line (p w : V3 ℝ) (hp : V3.norm p ≠ 0) :
+    HasDerivAt (fun t : ℝ => V3.norm (V3.add p (V3.smul t w))) (V3.dot p w / V3.norm p) 0 := by
+  have h := (hasDerivAt_norm2_line p w).sqrt (by simpa [add_smul_zero] using norm2_ne_zero_of_norm hp)
+  simp only [V3.norm, prim_sqrt]
+  rw [add_smul_zero] at h
+  exact h.congr_deriv (by ring)
+
+theorem unit_of_pos {p : V3 ℝ} (hp : V3.norm p ≠ 0) : V3.unit p = V3.smul (1 / V3.norm p) p := by
+  have : V3.norm p > 0.0 := by
+    rw [lit0]; exact lt_of_le_of_ne (norm_nonneg p) (Ne.symm hp)
+  simp only [V3.unit, this, if_true, lit1]
+
+theorem dot_unit (a d : V3 ℝ) : V3.dot (V3.unit a) d = V3.dot a d / V3.norm a := by
+  by_cases hn : V3.norm a = 0
+  · have h2 : V3.norm2 a = 0 := by
+      have := norm_mul_self a; rw [hn] at this; simpa using this.symm
+    have hx : a.x = 0 := by
+      simp only [V3.norm2, V3.dot] at h2; nlinarith [mul_self_nonneg a.x, mul_self_nonneg a.y, mul_self_nonneg a.z]
+    have hy : a.y = 0 := by
+      simp only [V3.norm2, V3.dot] at h2; nlinarith [mul_self_nonneg a.x, mul_self_nonneg a.y, mul_self_nonneg a.z]
+    have hz : a.z = 0 := by
+      simp only [V3.norm2, V3.dot] at h2; nlinarith [mul_self_nonneg a.x, mul_self_nonneg a.y, mul_self_nonneg a.z]
+    have : ¬ (V3.norm a > 0.0) := by rw [hn, lit0]; exact lt_irrefl 0
+    simp [V3.unit, this, V3.dot, hx, hy, hz]
+  · rw [unit_of_pos hn]; simp only [V3.dot, V3.smul]; field_simp
+
+theorem dot_unit_unit {a : V3 ℝ} (hn : V3.norm a ≠ 0) : V3.dot (V3.unit a) (V3.unit a) = 1 := by
+  rw [unit_of_pos hn]
+  have h := norm_mul_self a
+  simp only [V3.norm2, V3.dot] at h
+  simp only [V3.dot, V3.smul]
+  field_simp
+  nlinarith [h]
+
+/-- a bilinear form along two lines -/
+theorem hasDerivAt_dot_lines (a w b w' : V3 ℝ) :
+    HasDerivAt (fun t : ℝ => V3.dot (V3.add a (V3.smul t w)) (V3.add b (V3.smul t w')))
+      (V3.dot w b + V3.dot a w') 0 := by
+  have hx := (hasDerivAt_affine a.x w.x 0).fun_mul (hasDerivAt_affine b.x w'.x 0)
+  have hy := (hasDerivAt_affine a.y w.y 0).fun_mul (hasDerivAt_affine b.y w'.y 0)
+  have hz := (hasDerivAt_affine a.z w.z 0).fun_mul (hasDerivAt_affine b.z w'.z 0)
+  have h := (hx.fun_add hy).fun_add hz
+  simp only [V3.dot, V3.add, V3.smul]
+  exact h.congr_deriv (by ring)
+
+/-- projection on a moving unit vector -/
+theorem hasDerivAt_dot_unit_lines (a w b w' : V3 ℝ) (ha : V3.norm a ≠ 0) :
+    HasDerivAt (fun t : ℝ => V3.dot (V3.unit (V3.add a (V3.smul t w))) (V3.add b (V3.smul t w')))
+      (((V3.dot w b + V3.dot a w') * V3.norm a - V3.dot a b * (V3.dot a w / V3.norm a)) / V3.norm a ^ 2) 0 := by
+  simp only [dot_unit]
+  have h := (hasDerivAt_dot_lines a w b w').fun_div (hasDerivAt_norm_line a w ha) (by simpa [add_smul_zero] using ha)
+  simp only [add_smul_zero] at h
+  exact h
+
+
+/-! ### component gradients, stated with `mv` and `msum ≠ 0` -/
+
+theorem distance_grad2 (g1 g2 : AGroup ℝ) (hM : msum g2 ≠ 0) (hne : distance g1 g2 ≠ 0)
+    (k : Nat) (hk : k < g2.length) (d : V3 ℝ) :
+    HasDerivAt (fun t : ℝ => distance g1 (mv g2 k (V3.smul t d)))
+      (V3.dot ((distanceGrad g1 g2).2.getD k V3.zero) d) 0 := by
+  have hn : V3.norm (distVec g1 g2) ≠ 0 := hne
+  have hfun : ∀ t : ℝ, distance g1 (mv g2 k (V3.smul t d))
+      = V3.norm (V3.add (distVec g1 g2) (V3.smul t (V3.smul ((g2[k]'hk).m / msum g2) d))) := by
+    intro t
+    unfold distance distVec
+    rw [com_mv g2 hM k hk]
+    congr 1
+    apply v3_ext <;> simp only [V3.add, V3.sub, V3.smul] <;> ring
+  simp only [hfun]
+  have h := hasDerivAt_norm_line (distVec g1 g2) (V3.smul ((g2[k]'hk).m / msum g2) d) hn
+  simp only [distanceGrad]
+  rw [weighted_getD _ _ k hk, unit_of_pos hn]
+  refine h.congr_deriv ?_
+  simp only [V3.dot, V3.smul]
+  field_simp
+
+theorem distance_grad1 (g1 g2 : AGroup ℝ) (hM : msum g1 ≠ 0) (hne : distance g1 g2 ≠ 0)
+    (k : Nat) (hk : k < g1.length) (d : V3 ℝ) :
+    HasDerivAt (fun t : ℝ => distance (mv g1 k (V3.smul t d)) g2)
+      (V3.dot ((distanceGrad g1 g2).1.getD k V3.zero) d) 0 := by
+  have hn : V3.norm (distVec g1 g2) ≠ 0 := hne
+  have hfun : ∀ t : ℝ, distance (mv g1 k (V3.smul t d)) g2
+      = V3.norm (V3.add (distVec g1 g2) (V3.smul t (V3.smul (-((g1[k]'hk).m / msum g1)) d))) := by
+    intro t
+    unfold distance distVec
+    rw [com_mv g1 hM k hk]
+    congr 1
+    apply v3_ext <;> simp only [V3.add, V3.sub, V3.smul] <;> ring
+  simp only [hfun]
+  have h := hasDerivAt_norm_line (distVec g1 g2) (V3.smul (-((g1[k]'hk).m / msum g1)) d) hn
+  simp only [distanceGrad]
+  rw [weighted_getD _ _ k hk, unit_of_pos hn]
+  refine h.congr_deriv ?_
+  simp only [V3.dot, V3.smul, lit1]
+  field_simp
+
+theorem distanceZ_grad_m (main ref : AGroup ℝ) (axis : V3 ℝ) (hM : msum main ≠ 0)
+    (k : Nat) (hk : k < main.length) (d : V3 ℝ) :
+    HasDerivAt (fun t : ℝ => distanceZ (mv main k (V3.smul t d)) ref axis)
+      (V3.dot ((distanceZGrad main ref axis).1.getD k V3.zero) d) 0 := by
+  have hfun : ∀ t : ℝ, distanceZ (mv main k (V3.smul t d)) ref axis
+      = distanceZ main ref axis + t * (((main[k]'hk).m / msum main) * V3.dot (V3.unit axis) d) := by
+    intro t
+    unfold distanceZ
+    rw [com_mv main hM k hk]
+    simp only [V3.dot, V3.add, V3.sub, V3.smul]; ring
+  simp only [hfun]
+  have h := hasDerivAt_affine (distanceZ main ref axis) (((main[k]'hk).m / msum main) * V3.dot (V3.unit axis) d) 0
+  simp only [distanceZGrad]
+  rw [weighted_getD _ _ k hk]
+  refine h.congr_deriv ?_
+  simp only [V3.dot, V3.smul]; ring
+
+theorem distanceZ_grad_r (main ref : AGroup ℝ) (axis : V3 ℝ) (hM : msum ref ≠ 0)
+    (k : Nat) (hk : k < ref.length) (d : V3 ℝ) :
+    HasDerivAt (fun t : ℝ => distanceZ main (mv ref k (V3.smul t d)) axis)
+      (V3.dot ((distanceZGrad main ref axis).2.getD k V3.zero) d) 0 := by
+  have hfun : ∀ t : ℝ, distanceZ main (mv ref k (V3.smul t d)) axis
+      = distanceZ main ref axis + t * (-((ref[k]'hk).m / msum ref) * V3.dot (V3.unit axis) d) := by
+    intro t
+    unfold distanceZ
+    rw [com_mv ref hM k hk]
+    simp only [V3.dot, V3.add, V3.sub, V3.smul]; ring
+  simp only [hfun]
+  have h := hasDerivAt_affine (distanceZ main ref axis) (-((ref[k]'hk).m / msum ref) * V3.dot (V3.unit axis) d) 0
+  simp only [distanceZGrad]
+  rw [weighted_getD _ _ k hk]
+  refine h.congr_deriv ?_
+  simp only [V3.dot, V3.smul, lit1]; ring
+
+theorem distanceZ2_grad_m (main r1 r2 : AGroup ℝ) (hM : msum main ≠ 0)
+    (k : Nat) (hk : k < main.length) (d : V3 ℝ) :
+    HasDerivAt (fun t : ℝ => distanceZ2 (mv main k (V3.smul t d)) r1 r2)
+      (V3.dot ((distanceZ2Grad main r1 r2).1.getD k V3.zero) d) 0 := by
+  have hfun : ∀ t : ℝ, distanceZ2 (mv main k (V3.smul t d)) r1 r2
+      = distanceZ2 main r1 r2
+        + t * (((main[k]'hk).m / msum main) * V3.dot (V3.unit (V3.sub (com r2) (com r1))) d) := by
+    intro t
+    unfold distanceZ2
+    rw [com_mv main hM k hk]
+    simp only [V3.dot, V3.add, V3.sub, V3.smul]; ring
+  simp only [hfun]
+  have h := hasDerivAt_affine (distanceZ2 main r1 r2)
+    (((main[k]'hk).m / msum main) * V3.dot (V3.unit (V3.sub (com r2) (com r1))) d) 0
+  simp only [distanceZ2Grad]
+  rw [weighted_getD _ _ k hk]
+  refine h.congr_deriv ?_
+  simp only [V3.dot, V3.smul]; ring
+
+/-- the algebra behind the two reference-group gradients of `distanceZ2`, on bare vectors -/
+theorem z2_alg1 (c1 c2 cm d : V3 ℝ) (μ : ℝ) (hn : V3.norm (V3.sub c2 c1) ≠ 0) :
+    let a := V3.sub c2 c1
+    let b := V3.sub cm (V3.smul 0.5 (V3.add c1 c2))
+    let w := V3.smul (-μ) d
+    let w' := V3.smul (-(μ / 2)) d
+    ((V3.dot w b + V3.dot a w') * V3.norm a - V3.dot a b * (V3.dot a w / V3.norm a)) / V3.norm a ^ 2
+      = V3.dot (V3.smul μ (V3.smul (1.0 / V3.norm a)
+          (V3.add (V3.sub c1 cm) (V3.smul (V3.dot (V3.unit a) b) (V3.unit a))))) d := by
+  intro a b w w'
+  rw [dot_unit, unit_of_pos hn]
+  have hn' : V3.norm a ≠ 0 := hn
+  generalize V3.norm a = n at *
+  simp only [a, b, w, w', V3.dot, V3.add, V3.sub, V3.smul, lit1, lithalf]
+  field_simp
+  ring
+
+theorem z2_alg2 (c1 c2 cm d : V3 ℝ) (μ : ℝ) (hn : V3.norm (V3.sub c2 c1) ≠ 0) :
+    let a := V3.sub c2 c1
+    let b := V3.sub cm (V3.smul 0.5 (V3.add c1 c2))
+    let w := V3.smul μ d
+    let w' := V3.smul (-(μ / 2)) d
+    ((V3.dot w b + V3.dot a w') * V3.norm a - V3.dot a b * (V3.dot a w / V3.norm a)) / V3.norm a ^ 2
+      = V3.dot (V3.smul μ (V3.smul (1.0 / V3.norm a)
+          (V3.sub (V3.sub cm c2) (V3.smul (V3.dot (V3.unit a) b) (V3.unit a))))) d := by
+  intro a b w w'
+  rw [dot_unit, unit_of_pos hn]
+  have hn' : V3.norm a ≠ 0 := hn
+  generalize V3.norm a = n at *
+  simp only [a, b, w, w', V3.dot, V3.add, V3.sub, V3.smul, lit1, lithalf]
+  field_simp
+  ring
+
+theorem distanceZ2_grad_r1 (main r1 r2 : AGroup ℝ) (hM : msum r1 ≠ 0)
+    (hax : V3.norm (V3.sub (com r2) (com r1)) ≠ 0) (k : Nat) (hk : k < r1.length) (d : V3 ℝ) :
+    HasDerivAt (fun t : ℝ => distanceZ2 main (mv r1 k (V3.smul t d)) r2)
+      (V3.dot ((distanceZ2Grad main r1 r2).2.1.getD k V3.zero) d) 0 := by
+  have hfun : ∀ t : ℝ, distanceZ2 main (mv r1 k (V3.smul t d)) r2
+      = V3.dot (V3.unit (V3.add (V3.sub (com r2) (com r1)) (V3.smul t (V3.smul (-((r1[k]'hk).m / msum r1)) d))))
+          (V3.add (V3.sub (com main) (V3.smul 0.5 (V3.add (com r1) (com r2))))
+            (V3.smul t (V3.smul (-(((r1[k]'hk).m / msum r1) / 2)) d))) := by
+    intro t
+    unfold distanceZ2
+    rw [com_mv r1 hM k hk]
+    dsimp only
+    congr 1
+    · congr 1
+      apply v3_ext <;> simp only [V3.add, V3.sub, V3.smul] <;> ring
+    · apply v3_ext <;> simp only [V3.add, V3.sub, V3.smul, lithalf] <;> ring
+  simp only [hfun]
+  have h := hasDerivAt_dot_unit_lines (V3.sub (com r2) (com r1)) (V3.smul (-((r1[k]'hk).m / msum r1)) d)
+    (V3.sub (com main) (V3.smul 0.5 (V3.add (com r1) (com r2))))
+    (V3.smul (-(((r1[k]'hk).m / msum r1) / 2)) d) hax
+  simp only [distanceZ2Grad]
+  rw [weighted_getD _ _ k hk]
+  refine h.congr_deriv ?_
+  exact z2_alg1 (com r1) (com r2) (com main) d _ hax
+
+theorem distanceZ2_grad_r2 (main r1 r2 : AGroup ℝ) (hM : msum r2 ≠ 0)
+    (hax : V3.norm (V3.sub (com r2) (com r1)) ≠ 0) (k : Nat) (hk : k < r2.length) (d : V3 ℝ) :
+    HasDerivAt (fun t : ℝ => distanceZ2 main r1 (mv r2 k (V3.smul t d)))
+      (V3.dot ((distanceZ2Grad main r1 r2).2.2.getD k V3.zero) d) 0 := by
+  have hfun : ∀ t : ℝ, distanceZ2 main r1 (mv r2 k (V3.smul t d))
+      = V3.dot (V3.unit (V3.add (V3.sub (com r2) (com r1)) (V3.smul t (V3.smul ((r2[k]'hk).m / msum r2) d))))
+          (V3.add (V3.sub (com main) (V3.smul 0.5 (V3.add (com r1) (com r2))))
+            (V3.smul t (V3.smul (-(((r2[k]'hk).m / msum r2) / 2)) d))) := by
+    intro t
+    unfold distanceZ2
+    rw [com_mv r2 hM k hk]
+    dsimp only
+    congr 1
+    · congr 1
+      apply v3_ext <;> simp only [V3.add, V3.sub, V3.smul] <;> ring
+    · apply v3_ext <;> simp only [V3.add, V3.sub, V3.smul, lithalf] <;> ring
+  simp only [hfun]
+  have h := hasDerivAt_dot_unit_lines (V3.sub (com r2) (com r1)) (V3.smul ((r2[k]'hk).m / msum r2) d)
+    (V3.sub (com main) (V3.smul 0.5 (V3.add (com r1) (com r2))))
+    (V3.smul (-(((r2[k]'hk).m / msum r2) / 2)) d) hax
+  simp only [distanceZ2Grad]
+  rw [weighted_getD _ _ k hk]
+  refine h.congr_deriv ?_
+  exact z2_alg2 (com r1) (com r2) (com main) d _ hax
+
+theorem orthoPart_dot_axis (main ref : AGroup ℝ) (axis : V3 ℝ) (hax : V3.norm axis ≠ 0) :
+    V3.dot (orthoPart main ref axis) (V3.unit axis) = 0 := by
+  have h1 := dot_unit_unit hax
+  unfold orthoPart
+  generalize V3.unit axis = e at *
+  generalize V3.sub (com main) (com ref) = D
+  simp only [V3.dot, V3.sub, V3.smul] at *
+  linear_combination (-(D.x * e.x + D.y * e.y + D.z * e.z)) * h1
+
+theorem distanceXY_grad_m (main ref : AGroup ℝ) (axis : V3 ℝ) (hM : msum main ≠ 0)
+    (hax : V3.norm axis ≠ 0) (hne : distanceXY main ref axis ≠ 0) (k : Nat) (hk : k < main.length) (d : V3 ℝ) :
+    HasDerivAt (fun t : ℝ => distanceXY (mv main k (V3.smul t d)) ref axis)
+      (V3.dot ((distanceXYGrad main ref axis).1.getD k V3.zero) d) 0 := by
+  have hn : V3.norm (orthoPart main ref axis) ≠ 0 := hne
+  have h0 := orthoPart_dot_axis main ref axis hax
+  have hfun : ∀ t : ℝ, distanceXY (mv main k (V3.smul t d)) ref axis
+      = V3.norm (V3.add (orthoPart main ref axis)
+          (V3.smul t (V3.smul ((main[k]'hk).m / msum main)
+            (V3.sub d (V3.smul (V3.dot d (V3.unit axis)) (V3.unit axis)))))) := by
+    intro t
+    unfold distanceXY orthoPart
+    rw [com_mv main hM k hk]
+    congr 1
+    apply v3_ext <;> simp only [V3.dot, V3.add, V3.sub, V3.smul] <;> ring
+  simp only [hfun]
+  have h := hasDerivAt_norm_line (orthoPart main ref axis) (V3.smul ((main[k]'hk).m / msum main)
+            (V3.sub d (V3.smul (V3.dot d (V3.unit axis)) (V3.unit axis)))) hn
+  simp only [distanceXYGrad]
+  rw [weighted_getD _ _ k hk]
+  refine h.congr_deriv ?_
+  generalize orthoPart main ref axis = o at *
+  generalize V3.unit axis = e at *
+  generalize V3.norm o = n at *
+  simp only [V3.dot, V3.sub, V3.smul, lit1] at *
+  field_simp
+  linear_combination (-(main[k].m * (d.x * e.x + d.y * e.y + d.z * e.z))) * h0
+
+
+/-! ### gyration -/
+
+theorem foldl_centered (g : AGroup ℝ) (c : V3 ℝ) (acc : ℝ) :
+    (g.map fun a => V3.sub a.r c).foldl (fun s p => s + V3.norm2 p) acc
+      = acc + qsum g - 2 * V3.dot (rsum g) c + (g.length : ℝ) * V3.norm2 c := by
+  induction g generalizing acc with
+  | nil => simp [qsum, rsum, V3.dot]
+  | cons a g ih =>
+    simp only [List.map_cons, List.foldl_cons, ih, qsum, rsum, List.length_cons]
+    push_cast
+    simp only [V3.norm2, V3.dot, V3.sub, V3.add]
+    ring
+
+theorem gyration_eq (g : AGroup ℝ) (hg : g ≠ []) :
+    gyration g = Real.sqrt ((qsum g - V3.norm2 (rsum g) / (g.length : ℝ)) / (g.length : ℝ)) := by
+  have hN : (g.length : ℝ) ≠ 0 := by
+    have : g.length ≠ 0 := by simpa using hg
+    exact_mod_cast this
+  unfold gyration centered
+  rw [foldl_centered, cog_eq, prim_sqrt, lit0]
+  congr 2
+  simp only [V3.norm2, V3.dot, V3.smul]
+  field_simp
+  ring
+
+theorem gyration_grad_mv (g : AGroup ℝ) (hg : g ≠ []) (hne : gyration g ≠ 0) (k : Nat) (hk : k < g.length)
+    (d : V3 ℝ) :
+    HasDerivAt (fun t : ℝ => gyration (mv g k (V3.smul t d)))
+      (V3.dot ((gyrationGrad g).getD k V3.zero) d) 0 := by
+  have hN : (g.length : ℝ) ≠ 0 := by
+    have : g.length ≠ 0 := by simpa using hg
+    exact_mod_cast this
+  have hmvne : ∀ t : ℝ, mv g k (V3.smul t d) ≠ [] := by
+    intro t h
+    have := mv_length g k (V3.smul t d)
+    rw [h] at this
+    exact hg (List.length_eq_zero_iff.mp this.symm)
+  have hfun : ∀ t : ℝ, gyration (mv g k (V3.smul t d))
+      = Real.sqrt (((qsum g - V3.norm2 (g[k]'hk).r + V3.norm2 (V3.add (g[k]'hk).r (V3.smul t d)))
+          - V3.norm2 (V3.add (rsum g) (V3.smul t d)) / (g.length : ℝ)) / (g.length : ℝ)) := by
+    intro t
+    rw [gyration_eq _ (hmvne t), mv_length, qsum_mv g k hk, rsum_mv g k hk]
+  simp only [hfun]
+  have h1 := (hasDerivAt_norm2_line (g[k]'hk).r d).const_add (qsum g - V3.norm2 (g[k]'hk).r)
+  have h2 := (hasDerivAt_norm2_line (rsum g) d).div_const (g.length : ℝ)
+  have h3 := (h1.fun_sub h2).div_const (g.length : ℝ)
+  have hG := gyration_eq g hg
+  have hrad0 : ((qsum g - V3.norm2 (g[k]'hk).r + V3.norm2 (V3.add (g[k]'hk).r (V3.smul 0 d)))
+          - V3.norm2 (V3.add (rsum g) (V3.smul 0 d)) / (g.length : ℝ)) / (g.length : ℝ)
+        = (qsum g - V3.norm2 (rsum g) / (g.length : ℝ)) / (g.length : ℝ) := by
+    simp only [add_smul_zero]; ring
+  have hrad : (qsum g - V3.norm2 (rsum g) / (g.length : ℝ)) / (g.length : ℝ) ≠ 0 := by
+    intro h0; apply hne; rw [hG, h0, Real.sqrt_zero]
+  have h := h3.sqrt (by rw [hrad0]; exact hrad)
+  rw [hrad0, ← hG] at h
+  refine h.congr_deriv ?_
+  have hgetD : (gyrationGrad g).getD k V3.zero
+      = V3.smul (1 / ((g.length : ℝ) * gyration g)) (V3.sub (g[k]'hk).r (cog g)) := by
+    unfold gyrationGrad centered
+    simp [List.getD_eq_getElem?_getD, hk, lit1]
+  rw [hgetD, cog_eq]
+  generalize gyration g = G at *
+  simp only [V3.dot, V3.sub, V3.smul]
+  field_simp
+  ring
+
+/-! ### polynomial combination -/
+
+theorem ipow_eq (x : ℝ) (n : Nat) : ipow x n = x ^ n := by
+  induction n with
+  | zero => simp [ipow, lit1]
+  | succ n ih => simp only [ipow, ih]; ring
+
+theorem foldl_combine (ts : List (Term ℝ)) (acc : ℝ) :
+    ts.foldl (fun s t => s + t.c * ipow t.q t.n) acc = acc + (ts.map fun t => t.c * t.q ^ t.n).sum := by
+  induction ts generalizing acc with
+  | nil => simp
+  | cons t ts ih => rw [List.foldl_cons, ih, List.map_cons, List.sum_cons, ipow_eq]; ring
+
+theorem combine_eq (ts : List (Term ℝ)) : combine ts = (ts.map fun t => t.c * t.q ^ t.n).sum := by
+  unfold combine; rw [foldl_combine, lit0]; ring
+
+theorem hasDerivAt_list_sum {ι : Type} (l : List ι) (f : ι → ℝ → ℝ) (f' : ι → ℝ) (x : ℝ)
+    (h : ∀ i ∈ l, HasDerivAt (f i) (f' i) x) :
+    HasDerivAt (fun t : ℝ => (l.map fun i => f i t).sum) ((l.map f').sum) x := by
+  induction l with
+  | nil => simpa using hasDerivAt_const x (0 : ℝ)
+  | cons i l ih =>
+    simp only [List.map_cons, List.sum_cons]
+    exact (h i (by simp)).fun_add (ih fun j hj => h j (by simp [hj]))
+
+theorem hasDerivAt_term (c : ℝ) (n : Nat) (q : ℝ → ℝ) (q' x : ℝ) (hq : HasDerivAt q q' x) :
+    HasDerivAt (fun t : ℝ => c * q t ^ n) (termFactor ({ c := c, n := n, q := q x } : Term ℝ) * q') x := by
+  have h := (hq.fun_pow n).const_mul c
+  refine h.congr_deriv ?_
+  by_cases hn : n = 0
+  · subst hn; simp [termFactor, lit0]
+  · simp only [termFactor, hn, if_false, ipow_eq]; ring
+
+theorem combine_chain_gen (is : List Nat) (c : Nat → ℝ) (n : Nat → Nat) (q : Nat → ℝ → ℝ) (q' : Nat → ℝ)
+    (hq : ∀ i ∈ is, HasDerivAt (q i) (q' i) 0) :
+    HasDerivAt (fun t : ℝ => combine (is.map fun i => ({ c := c i, n := n i, q := q i t } : Term ℝ)))
+      ((is.map fun i => termFactor ({ c := c i, n := n i, q := q i 0 } : Term ℝ) * q' i).sum) 0 := by
+  simp only [combine_eq, List.map_map, Function.comp_def]
+  exact hasDerivAt_list_sum is (fun i t => c i * q i t ^ n i)
+    (fun i => termFactor ({ c := c i, n := n i, q := q i 0 } : Term ℝ) * q' i) 0
+    (fun i hi => hasDerivAt_term (c i) (n i) (q i) (q' i) 0 (hq i hi))
+
+/-- harmonic restraint energy along a path of the component value -/
+theorem harmonic_energy_deriv (c : ℝ) (n : Nat) (kf x₀ w : ℝ) (hw : w ≠ 0) (q : ℝ → ℝ) (q' : ℝ)
+    (hq : HasDerivAt q q' 0) :
+    HasDerivAt (fun t : ℝ => 0.5 * kf * ((combine [({ c := c, n := n, q := q t } : Term ℝ)] - x₀) / w) ^ 2)
+      (kf * (combine [({ c := c, n := n, q := q 0 } : Term ℝ)] - x₀) / (w * w)
+        * termFactor ({ c := c, n := n, q := q 0 } : Term ℝ) * q') 0 := by
+  have hx : HasDerivAt (fun t : ℝ => combine [({ c := c, n := n, q := q t } : Term ℝ)])
+      (termFactor ({ c := c, n := n, q := q 0 } : Term ℝ) * q') 0 := by
+    have := combine_chain_gen [0] (fun _ => c) (fun _ => n) (fun _ => q) (fun _ => q') (by simpa using hq)
+    simpa using this
+  have h := ((((hx.sub_const x₀).div_const w).fun_pow 2).const_mul (0.5 * kf))
+  refine h.congr_deriv ?_
+  rw [lithalf]
+  generalize combine [({ c := c, n := n, q := q 0 } : Term ℝ)] = X
+  generalize termFactor ({ c := c, n := n, q := q 0 } : Term ℝ) = T
+  norm_num
+  field_simp
+
+theorem distance_grad_sum (g1 g2 : AGroup ℝ) (hM1 : msum g1 ≠ 0) (hM2 : msum g2 ≠ 0) :
+    V3.add (groupForce (distanceGrad g1 g2).1) (groupForce (distanceGrad g1 g2).2) = V3.zero := by
+  simp only [distanceGrad]
+  rw [groupForce_weighted g1 hM1, groupForce_weighted g2 hM2]
+  apply v3_ext <;> simp [V3.add, V3.smul, V3.zero, lit0, lit1]
+
 end Cv.C01
